@@ -380,3 +380,23 @@ package redis
 //@   let v = r.raw.body.Array
 //@   loop 0 invariant 1 <= i && i <= len(v) && len(sreqs) == i - 1 && cap(sreqs) == len(v) - 1 && fresh(sreqs) && v == old(r.raw.body.Array) && r.raw == old(r.raw) && r.raw.body == old(r.raw.body)
 //@   loop 0 invariant forall k int :: 0 <= k && k < len(sreqs) ==> mgetchild(sreqs[k], v, k+1) && fresh(sreqs[k]) && fresh(sreqs[k].body) && fresh(sreqs[k].body.Array)
+
+//@ func (*msetRequest).Split
+//@   prop C03 C01 C11
+//@   requires r != nil && r.raw != nil && validbody(r.raw.body) && len(r.raw.body.Array) >= 3 && len(r.raw.body.Array) % 2 == 1 && isnil(r.children) && r.childWait != nil
+//@   modifies r.children
+//@   ensures @one-child-per-pair len(result) == len(r.raw.body.Array) / 2 && result == r.children
+//@   ensures @child-i-is-set-pair-i forall k int :: 0 <= k && k < len(result) ==> msetchild(result[k], r.raw.body.Array, k)
+//@   let v = r.raw.body.Array
+//@   loop 0 invariant 0 <= i && i <= len(v) / 2 && len(sreqs) == i && cap(sreqs) == len(v) / 2 && fresh(sreqs) && v == old(r.raw.body.Array) && r.raw == old(r.raw) && r.raw.body == old(r.raw.body)
+//@   loop 0 invariant forall k int :: 0 <= k && k < len(sreqs) ==> msetchild(sreqs[k], v, k) && fresh(sreqs[k]) && fresh(sreqs[k].body) && fresh(sreqs[k].body.Array)
+
+//@ func (*sumResultRequest).Split
+//@   prop C03 C01 C11
+//@   requires r != nil && r.raw != nil && validbody(r.raw.body) && len(r.raw.body.Array) >= 2 && isnil(r.children) && r.childWait != nil
+//@   modifies r.children
+//@   ensures @one-child-per-key len(result) == len(r.raw.body.Array) - 1 && result == r.children
+//@   ensures @child-i-is-cmd-key-i forall k int :: 0 <= k && k < len(result) ==> sumchild(result[k], r.raw.body.Array, k+1)
+//@   let v = r.raw.body.Array
+//@   loop 0 invariant 1 <= i && i <= len(v) && len(sreqs) == i - 1 && cap(sreqs) == len(v) - 1 && fresh(sreqs) && v == old(r.raw.body.Array) && r.raw == old(r.raw) && r.raw.body == old(r.raw.body)
+//@   loop 0 invariant forall k int :: 0 <= k && k < len(sreqs) ==> sumchild(sreqs[k], v, k+1) && fresh(sreqs[k]) && fresh(sreqs[k].body) && fresh(sreqs[k].body.Array)
